@@ -1,4 +1,5 @@
 import Pyxv.Model.BackendsGuards
+import Pyxv.Proofs.BackendsLemmas
 /-!
 # CSV backend: `csv.reader` inverts the QUOTE_ALL writer; `csv_to_dict` round trip
 -/
@@ -167,16 +168,25 @@ theorem firstColumn_cells (r : List Str) (h : cellsOK r = true) :
 
 
 
-theorem firstColumn_row (r : List Str) (h : r.any (fun c => strip c ≠ []) = true) :
-    firstColumn ([] :: r) = (none, some (r.map strip)) := by
+/-- any record `"" , cells…` with at least one cell: no sheet title; content iff some cell is not blank -/
+theorem firstColumn_any (r : List Str) (hne : r ≠ []) :
+    firstColumn ([] :: r)
+      = (none, if (r.map strip).any (· ≠ []) = true then some (r.map strip) else none) := by
   cases r with
-  | nil => simp at h
+  | nil => exact absurd rfl hne
   | cons c r =>
     have hs : strip ([] : Str) = [] := by decide
-    have : (List.map strip (c :: r)).any (· ≠ []) = true := by
-      simpa [List.any_map, Function.comp_def] using h
-    simp only [firstColumn, hs, this]
+    simp only [firstColumn, hs]
     simp
+
+/-- blank cells contribute nothing to a row dict -/
+theorem zipDict_blank : ∀ (hs vs : List Str) (acc : KRow), (∀ c ∈ vs, c = []) → zipDict hs vs acc = acc
+  | [], vs, acc, _ => by cases vs <;> simp [zipDict]
+  | _ :: _, [], acc, _ => by simp [zipDict]
+  | h :: hs, v :: vs, acc, hh => by
+    have hv : v = [] := hh v (by simp)
+    simp only [zipDict, hv, if_true]
+    exact zipDict_blank hs vs acc (fun c hc => hh c (by simp [hc]))
 
 theorem zipDict_strip : ∀ (hdr r : List Str) (acc : KRow),
     (r.take hdr.length).all (fun c => strip c = c) = true →
@@ -189,14 +199,25 @@ theorem zipDict_strip : ∀ (hdr r : List Str) (acc : KRow),
     simp only [List.map_cons, zipDict, hh.1]
     exact zipDict_strip hs vs _ hh.2
 
-/-- a data record `"" , cells…` appends one row dict to the current sheet -/
+/-- a data record `"" , cells…` (blank or not) appends one row dict to the current sheet; a blank
+record appends `{}` = `sheetRow hdr r` -/
 theorem csvRow_data (P Q : Book) (low : Str) (l : List KRow) (hdr r : List Str)
     (hr : rowOK hdr r = true) (hP : low ∉ P.map (·.1)) :
     csvRow ⟨P ++ (low, .rows l) :: Q, some low, some hdr⟩ ([] :: r)
       = .ok ⟨P ++ (low, .rows (l ++ [sheetRow hdr r])) :: Q, some low, some hdr⟩ := by
-  simp only [rowOK, Bool.and_eq_true] at hr
-  simp [csvRow, firstColumn_row r hr.2, dget_mid low _ Q P hP, dset_mid low _ _ Q P hP, sheetRow,
-    zipDict_strip hdr r [] hr.1]
+  simp only [rowOK, Bool.and_eq_true, Bool.not_eq_true', List.isEmpty_eq_false_iff] at hr
+  have hlen : 0 < r.length := List.length_pos_iff.mpr hr.1
+  by_cases hb : (r.map strip).any (· ≠ []) = true
+  · have hfc : firstColumn ([] :: r) = (none, some (r.map strip)) := by
+      rw [firstColumn_any r hr.1, if_pos hb]
+    simp [csvRow, hfc, dget_mid low _ Q P hP, dset_mid low _ _ Q P hP, sheetRow,
+      zipDict_strip hdr r [] hr.2]
+  · have hall : ∀ c ∈ r.map strip, c = [] := by simpa using hb
+    have hz : zipDict hdr r [] = [] := by
+      rw [← zipDict_strip hdr r [] hr.2]; exact zipDict_blank _ _ _ hall
+    have hfc : firstColumn ([] :: r) = (none, none) := by
+      rw [firstColumn_any r hr.1, if_neg hb]
+    simp [csvRow, hfc, dget_mid low _ Q P hP, dset_mid low _ _ Q P hP, sheetRow, hz, hlen]
 
 /-- the header record `"" , cells…` right after a sheet-title record -/
 theorem csvRow_header (B : Book) (low : Str) (hdr : List Str)
@@ -241,7 +262,7 @@ def nameOK (seen : List Str) (n : Str) : Bool :=
     && !seen.contains (lowerAscii n ++ headerSuffix)
 
 def sheetOK (seen : List Str) (s : Sheet) : Bool :=
-  nameOK seen s.name && cellsOK s.header && s.rows.all (rowOK s.header)
+  nameOK seen s.name && cellsOK s.header && s.rows.all (rowOK s.header) && noTrailingBlank s
 
 def okFrom : List Str → Workbook → Bool
   | _, [] => true
@@ -255,7 +276,7 @@ theorem csvProcess_sheet (ns : List Str) (E : Book) (sh : Option Str) (hd : Opti
           some (lowerAscii s.name), some s.header⟩ rest := by
   simp only [sheetOK, nameOK, Bool.and_eq_true, Bool.not_eq_true', List.contains_eq_mem,
     decide_eq_false_iff_not, List.isEmpty_eq_false_iff] at h
-  obtain ⟨⟨⟨⟨⟨⟨h0, hw⟩, h1⟩, h2⟩, h3⟩, hh⟩, hr⟩ := h
+  obtain ⟨⟨⟨⟨⟨⟨⟨h0, hw⟩, h1⟩, h2⟩, h3⟩, hh⟩, hr⟩, _⟩ := h
   have happ : lowerAscii s.name ++ headerSuffix ≠ lowerAscii s.name :=
     fun e => absurd (List.append_right_eq_self.mp e) (by decide)
   have hB : lowerAscii s.name ++ headerSuffix ∉
@@ -275,7 +296,7 @@ theorem csvProcess_sheet (ns : List Str) (E : Book) (sh : Option Str) (hd : Opti
 theorem csvProcess_from : ∀ (wb : Workbook) (ns : List Str) (E : Book) (sh : Option Str)
     (hd : Option (List Str)), okFrom (sheetNamesKey :: E.map (·.1)) wb = true →
     csvProcess ⟨(sheetNamesKey, .names ns) :: E, sh, hd⟩ (csvRows wb)
-      = .ok ((sheetNamesKey, .names (ns ++ wb.map (·.name))) :: (E ++ wb.flatMap sheetEntries))
+      = .ok (csvTrim ((sheetNamesKey, .names (ns ++ wb.map (·.name))) :: (E ++ wb.flatMap sheetEntries)))
   | [], ns, E, sh, hd, _ => by simp [csvRows, csvProcess]
   | s :: wb, ns, E, sh, hd, h => by
     simp only [okFrom, Bool.and_eq_true] at h
@@ -374,7 +395,7 @@ theorem okFrom_of_okNames : ∀ (wb : Workbook) (prev : List Str), (∀ m ∈ pr
   | s :: wb, prev, hprev, h => by
     simp only [okNames, Bool.and_eq_true, Bool.not_eq_true', List.contains_eq_mem,
       decide_eq_false_iff_not, List.isEmpty_eq_false_iff] at h
-    obtain ⟨⟨⟨⟨⟨h0, hw⟩, hd⟩, hh⟩, hr⟩, hrest⟩ := h
+    obtain ⟨⟨⟨⟨⟨⟨h0, hw⟩, hd⟩, hh⟩, hr⟩, ht⟩, hrest⟩ := h
     have hprev' : ∀ m ∈ prev ++ [s.name], weirdName m = false := by
       intro m hm
       rcases List.mem_append.mp hm with hm | hm
@@ -386,7 +407,7 @@ theorem okFrom_of_okNames : ∀ (wb : Workbook) (prev : List Str), (∀ m ∈ pr
       simp [sheetKeys]
     rw [hk] at ih
     simp only [okFrom, sheetOK, Bool.and_eq_true]
-    exact ⟨⟨⟨nameOK_of_simple prev hprev s.name h0 hw hd, hh⟩, hr⟩, ih⟩
+    exact ⟨⟨⟨⟨nameOK_of_simple prev hprev s.name h0 hw hd, hh⟩, hr⟩, ht⟩, ih⟩
 
 /-- conversely the key-level guard implies the name-level one: nothing is lost -/
 theorem okNames_of_okFrom : ∀ (wb : Workbook) (prev : List Str),
@@ -396,7 +417,7 @@ theorem okNames_of_okFrom : ∀ (wb : Workbook) (prev : List Str),
   | s :: wb, prev, h => by
     simp only [okFrom, sheetOK, nameOK, Bool.and_eq_true, Bool.not_eq_true', List.contains_eq_mem,
       decide_eq_false_iff_not, List.isEmpty_eq_false_iff] at h
-    obtain ⟨⟨⟨⟨⟨⟨⟨h0, hw⟩, _⟩, h2⟩, _⟩, hh⟩, hr⟩, hrest⟩ := h
+    obtain ⟨⟨⟨⟨⟨⟨⟨⟨h0, hw⟩, _⟩, h2⟩, _⟩, hh⟩, hr⟩, ht⟩, hrest⟩ := h
     have hk : sheetNamesKey :: (prev ++ [s.name]).flatMap (fun m => [lowerAscii m, lowerAscii m ++ headerSuffix])
         = (sheetNamesKey :: prev.flatMap (fun m => [lowerAscii m, lowerAscii m ++ headerSuffix])) ++ sheetKeys s := by
       simp [sheetKeys]
@@ -405,15 +426,51 @@ theorem okNames_of_okFrom : ∀ (wb : Workbook) (prev : List Str),
       intro hm
       obtain ⟨m, hm, e⟩ := List.mem_map.mp hm
       exact h2 ((mem_seen prev _).mpr (Or.inr ⟨m, hm, Or.inl e.symm⟩))
-    simp [okNames, h0, hw, hd, hh, hr, ih]
+    simp [okNames, h0, hw, hd, hh, hr, ht, ih]
 
 theorem CsvOK_iff_keys (wb : Workbook) : CsvOK wb = true ↔ okFrom [sheetNamesKey] wb = true :=
   ⟨fun h => okFrom_of_okNames wb [] (by simp) h, fun h => okNames_of_okFrom wb [] h⟩
 
+/-! ## the final trimming loop changes nothing under the guard -/
+
+theorem csvTrim_entries (s : Sheet) (h : noTrailingBlank s = true) :
+    csvTrim (sheetEntries s) = sheetEntries s := by
+  have h' : stripTrailing (·.isEmpty) (s.rows.map (sheetRow s.header)) = s.rows.map (sheetRow s.header) := by
+    simpa [noTrailingBlank, dictRows] using h
+  simp only [csvTrim, sheetEntries, List.map_cons, List.map_nil, h']
+  split <;> rfl
+
+theorem csvTrim_flat : ∀ wb : Workbook, (∀ s ∈ wb, noTrailingBlank s = true) →
+    csvTrim (wb.flatMap sheetEntries) = wb.flatMap sheetEntries
+  | [], _ => rfl
+  | s :: wb, h => by
+    have h1 := csvTrim_entries s (h s (by simp))
+    have h2 := csvTrim_flat wb (fun t ht => h t (by simp [ht]))
+    simp only [csvTrim, List.flatMap_cons, List.map_append] at h1 h2 ⊢
+    rw [h1, h2]
+
+theorem csvTrim_toBook (wb : Workbook) (h : ∀ s ∈ wb, noTrailingBlank s = true) :
+    csvTrim (toBook wb) = toBook wb := by
+  have := csvTrim_flat wb h
+  simp only [csvTrim, toBook, List.map_cons] at this ⊢
+  rw [this]
+
+theorem noTrailing_of_okFrom : ∀ (wb : Workbook) (seen : List Str), okFrom seen wb = true →
+    ∀ s ∈ wb, noTrailingBlank s = true
+  | [], _, _, s, hs => by simp at hs
+  | t :: wb, seen, h, s, hs => by
+    simp only [okFrom, sheetOK, Bool.and_eq_true] at h
+    rcases List.mem_cons.mp hs with rfl | hs
+    · exact h.1.2
+    · exact noTrailing_of_okFrom wb _ h.2 s hs
+
 /-- `process_csv_data` on the records of a rendered workbook yields the workbook's dict. -/
 theorem csvProcess_rows (wb : Workbook) (h : CsvOK wb = true) :
     csvProcess csvAcc0 (csvRows wb) = .ok (toBook wb) := by
-  have := csvProcess_from wb [] [] none none (by simpa using (CsvOK_iff_keys wb).mp h)
+  have hk := (CsvOK_iff_keys wb).mp h
+  have := csvProcess_from wb [] [] none none (by simpa using hk)
+  have ht : csvTrim (toBook wb) = toBook wb := csvTrim_toBook wb (noTrailing_of_okFrom wb _ hk)
+  rw [← ht]
   simpa [csvAcc0, toBook] using this
 
 /-- `csv_to_dict` reads back the CSV rendering of every workbook in the guard. -/
@@ -434,22 +491,48 @@ example : CsvOK wbDemo = true := by decide
 example : isCsv (renderCsv wbDemo) = true := by decide
 example : csvToDict (renderCsv wbDemo) = .ok (toBook wbDemo) := csv_roundtrip wbDemo (by decide) (by decide)
 example : csvProcess csvAcc0 (csvRows wbDemo) = .ok (toBook wbDemo) := csvProcess_rows wbDemo (by decide)
--- the guard is not trivially true: blank data rows (F16), unstripped cells, clashing names
+-- the guard is not trivially true: trailing blank rows, empty row lists, unstripped cells, clashing names
 example : CsvOK [⟨"a".toList, ["h".toList], [[[]]]⟩] = false := by decide
+example : CsvOK [⟨"a".toList, ["h".toList], [["v".toList], [[]]]⟩] = false := by decide
+example : CsvOK [⟨"a".toList, ["h".toList], [["v".toList], []]⟩] = false := by decide
 example : CsvOK [⟨"a".toList, ["h ".toList], []⟩] = false := by decide
+example : CsvOK [⟨"a".toList, ["h".toList], [[" v".toList]]⟩] = false := by decide
 example : CsvOK [⟨"A".toList, ["h".toList], []⟩, ⟨"a".toList, ["h".toList], []⟩] = false := by decide
 example : CsvOK [⟨"a_header".toList, ["h".toList], []⟩] = false := by decide
 
 -- a cell beyond the header need not be stripped
 example : CsvOK [⟨"a".toList, ["h".toList], [["v".toList, " x ".toList]]⟩] = true := by decide
--- outside the guard the round trip really fails: a blank data row is dropped (F16), and a second
--- sheet whose name differs only in case is merged into the first
+
 def isOkWith (r : Except Err Book) (b : Book) : Bool := match r with | .ok b' => b' = b | .error _ => false
+
+-- blank rows amongst the data are inside the guard and are kept as `{}` (also a blank row whose cell
+-- beyond the header is a space)
+def wbInterior : Workbook :=
+  [⟨"a".toList, ["h".toList, "i".toList], [["a".toList], [[]], [[], [], " ".toList], ["b".toList]]⟩]
+example : CsvOK wbInterior = true := by decide
+example : toBook wbInterior =
+    [(sheetNamesKey, .names ["a".toList]),
+     ("a".toList, .rows [[(some "h".toList, "a".toList)], [], [], [(some "h".toList, "b".toList)]]),
+     ("a_header".toList, .header (l2dl ["h".toList, "i".toList]))] := by decide
+example : csvToDict (renderCsv wbInterior) = .ok (toBook wbInterior) :=
+  csv_roundtrip wbInterior (by decide) (by decide)
+example : isOkWith (csvToDict (renderCsv wbInterior)) (toBook wbInterior) = true := by decide +kernel
+
+-- a cell with an interior U+00A0 is inside the guard; both sides read it as a space
+def wbNbsp : Workbook := [⟨"a".toList, ["h".toList, "i".toList], [[['x', Char.ofNat 160, 'y'], "z".toList]]⟩]
+example : CsvOK wbNbsp = true := by decide
+example : toBook wbNbsp =
+    [(sheetNamesKey, .names ["a".toList]),
+     ("a".toList, .rows [[(some "h".toList, "x y".toList), (some "i".toList, "z".toList)]]),
+     ("a_header".toList, .header (l2dl ["h".toList, "i".toList]))] := by decide
+example : csvToDict (renderCsv wbNbsp) = .ok (toBook wbNbsp) := csv_roundtrip wbNbsp (by decide) (by decide)
+
+-- outside the guard the round trip really fails: a trailing blank data row is dropped, and a second
+-- sheet whose name differs only in case is merged into the first
 def wbBlank : Workbook := [⟨"a".toList, ["h".toList, "i".toList, "j".toList], [["v".toList], [[]]]⟩]
 def wbCase : Workbook := [⟨"A".toList, ["h".toList, "i".toList], []⟩, ⟨"a".toList, ["h".toList, "i".toList], []⟩]
 example : isOkWith (csvToDict (renderCsv wbDemo)) (toBook wbDemo) = true := by decide +kernel
 example : CsvOK wbBlank = false ∧ isOkWith (csvToDict (renderCsv wbBlank)) (toBook wbBlank) = false := by decide
 example : CsvOK wbCase = false ∧ isOkWith (csvToDict (renderCsv wbCase)) (toBook wbCase) = false := by decide
-
 
 end Pyxv.Backends.Csv
